@@ -79,6 +79,10 @@ ASSUMPTIONS = [
     '(callback / oem -> KeyError: not generated); Aardvark pullups=off / power=off are parsed to False and handed to the '
     'interface as given (that aardvark.py treats False as "not given" is outside ipmitool.py)',
     'the as-shipped counter-example theorems are about a frozen copy of the pinned table (Lemmas/CliAsShipped.lean)',
+    '`raw`: a completion code in the reply is printed as data (it is the first reply byte) and the tool returns 0 - the '
+    'check sides with the clause "prints exactly the reply bytes in hex" against the clause "BMC error codes ... end the '
+    'tool with a message and a non-zero exit status" (the expected output of a faulted `raw` run is the stub\'s reply, '
+    'exit \'return\'); for every other entry an error completion code must end in a message and a non-zero status',
 ]
 TRUSTED = ['harness/translate/cli.py', 'harness/sim/bmc20.py', 'harness/props/c20.py',
            'harness/sim/pristine.py (fork server: histories run in a process that has not run main() yet)']
@@ -1888,6 +1892,24 @@ def run(ctx):
 
 def search(ctx):
     """A tie broke and run() produced no concrete violation: promote disagreements the property decides."""
+    # Props/C20.table_is_intended (today's table = the intended one) / table_resolves stopped building: the failing
+    # input is the entry whose method reference does not resolve.  run()'s _table_facts reports it (then search is not
+    # called at all); this is the same oracle on a fresh snapshot for the case that run() ended before it got there.
+    if any(k == 'build' and ('table_is_intended' in d or 'table_resolves' in d or 'chassis_power_codes' in d)
+           for k, d in ctx.broken) or not ctx.lean_ok:
+        try:
+            snap = _safe_snapshot(ctx)
+            for i, j, name, meth, exc in python_unresolved(snap):
+                argv = name.split(' ') + _witness_args(name)
+                o = run_cli(argv)
+                ctx.violate('C20:table_resolves:%s:%s' % (name, meth),
+                            'entry %r calls ipmi.%s, which %s' % (
+                                name, meth, 'does not exist on pyipmi.Ipmi' if exc == 'AttributeError'
+                                else 'cannot be called with the arguments the handler passes'),
+                            {'kind': 'resolve', 'argv': argv, 'entry': name, 'method': meth, 'ref': j},
+                            expected='the call resolves (no %s)' % exc, observed=str(o.exit))
+        except Exception as e:  # noqa
+            ctx.notes.append('search: table oracle could not run: %s' % type(e).__name__)
     for d in ctx.disagreements:
         c = d.get('case') or {}
         if d['what'] in ('raw', 'raw-output') and c.get('argv'):
